@@ -1424,12 +1424,12 @@ TPM_RESULT TPM_Process_NVReadValue(tpm_state_t *tpm_state,
 		/* i. If TPM_PERMANENT_FLAGS -> disable is TRUE, return TPM_DISABLED */
 		if (tpm_state->tpm_permanent_flags.disable) {
 		    printf("TPM_Process_NVReadValue: Error, disabled\n");
-		    return TPM_DISABLED;
+		    returnCode = TPM_DISABLED;
 		}
 		/* ii. If TPM_STCLEAR_FLAGS -> deactivated is TRUE, return TPM_DEACTIVATED */
 		else if (tpm_state->tpm_stclear_flags.deactivated) {
 		    printf("TPM_Process_NVReadValue: Error, deactivated\n");
-		    return TPM_DEACTIVATED;;
+		    returnCode = TPM_DEACTIVATED;
 		}
 	    }
 	    /* NOTE: Intel software requires NV access disabled and deactivated */
@@ -2141,12 +2141,12 @@ TPM_RESULT TPM_Process_NVWriteValue(tpm_state_t *tpm_state,
 		/* i. If TPM_PERMANENT_FLAGS -> disable is TRUE, return TPM_DISABLED */
 		if (tpm_state->tpm_permanent_flags.disable) {
 		    printf("TPM_Process_NVWriteValue: Error, disabled\n");
-		    return TPM_DISABLED;
+		    returnCode = TPM_DISABLED;
 		}
 		/* ii.If TPM_STCLEAR_FLAGS -> deactivated is TRUE, return TPM_DEACTIVATED */
 		else if (tpm_state->tpm_stclear_flags.deactivated) {
 		    printf("TPM_Process_NVWriteValue: Error, deactivated\n");
-		    return TPM_DEACTIVATED;;
+		    returnCode = TPM_DEACTIVATED;
 		}
 	    }
 	    /* NOTE: Intel software requires NV access disabled and deactivated */
